@@ -46,6 +46,7 @@ Shapes(m) == {[i \in 1..m |-> i], [i \in 1..m |-> (i + 1) \div 2], [i \in 1..m |
               [i \in 1..m |-> 3]}
 Perms(m) == Permutations(1..m)
 Entries == <<"ci", "sorted", "max_n", "max_1024">>
+EntriesX == <<"ci", "sorted", "max_n", "max_1024", "ci_sparse">>
 Types   == <<"i32", "f64", "char", "str">>
 Quants  == <<[n |-> 16, p |-> -5], [n |-> 8, p |-> -5], [n |-> 25, p |-> -5]>>
 
@@ -75,8 +76,8 @@ IotaPart(d) ==
      LET n == 17 + ((i * 37) % 400)
          seed == 1000 + i * 7919
          qi == 1 + ((i * 11) % 31) IN
-     \A ki \in 1..3 : \A ei \in {1, 2, 4} :
-        Emit([op |-> "quant.data", dfmt |-> "iota", entry |-> Entries[ei], ty |-> Types[(i % 2) + 1],
+     \A ki \in 1..3 : \A ei \in {1, 2, 4, 5} :
+        Emit([op |-> "quant.data", dfmt |-> "iota", entry |-> EntriesX[ei], ty |-> Types[(i % 2) + 1],
               data |-> [iota |-> n, order |-> <<"shuffle", seed>>],
               q |-> [n |-> qi, p |-> -5], conf |-> Conf(ki, 12), li |-> 12])
 
@@ -96,6 +97,6 @@ BigPopPart(d) ==
 
 Next == /\ ~done
         /\ done' = TRUE
-        /\ CASE Part = "ranks" -> (RanksPart(done) /\ BigPopPart(done)) [] Part = "perm" -> PermPart(done) [] Part = "shuffle" -> (ShufflePart(done) /\ IotaPart(done) /\ BigCapPart(done))
+        /\ CASE Part = "ranks" -> (RanksPart(done) /\ BigPopPart(done)) [] Part = "big" -> BigPopPart(done) [] Part = "perm" -> PermPart(done) [] Part = "shuffle" -> (ShufflePart(done) /\ IotaPart(done) /\ BigCapPart(done))
 Spec == Init /\ [][Next]_done
 =============================================================================
